@@ -265,7 +265,7 @@ func init() {
 			return js
 		},
 		Bounds: func(tier string) string {
-			return "pipelines of 1..3 requests, each of a solver-chosen kind (GET, SET, two-key MGET over one or two nodes, PING, unknown command, wrong arity, QUIT last) with solver-chosen key bytes/owner, every schedule of up to 8 (quick) / 9 (thorough) events; a second concurrent client, one of the two possibly disconnecting at any point with requests in flight (the other client's replies must be unaffected); replies of 5000 and 17000 bytes completing out of order"
+			return "pipelines of 1..3 requests, each of a solver-chosen kind (GET, SET, two-key MGET over one or two nodes, PING, unknown command, wrong arity, QUIT last) with solver-chosen key bytes/owner, every schedule of up to 6..8 events depending on the job (thorough: 7..10); a schedule may also end whenever only faults remain enabled; a second concurrent client, one of the two possibly disconnecting at any point with requests in flight (the other client's replies must be unaffected); replies of 5000 and 17000 bytes completing out of order"
 		},
 		Assumptions: []string{worldAssume}, Stubs: []string{stubWorld},
 		Outside: []string{"longer pipelines and schedules, more than two backends/clients, reply contents other than key echoes"}})
@@ -279,7 +279,7 @@ func init() {
 			return js
 		},
 		Bounds: func(tier string) string {
-			return "liveness reduced to a one-step progress obligation: after EVERY backend-reply event in every schedule (2..3 requests, <= 8/9 events) no completed request is left at the head of the client's queue, i.e. the longest completed prefix has been written; a slow reader: 3 (thorough 4) pipelined requests answered while the client's socket accepts nothing / 3 bytes / everything per write, writable events in between, then the client catches up (writable events for as long as the proxy asks the poller for them): every completed reply has been delivered, byte-exact"
+			return "liveness reduced to a one-step progress obligation: after EVERY backend-reply event in every schedule (2..3 requests, <= 6..8 events, thorough 7..10) no completed request is left at the head of the client's queue, i.e. the longest completed prefix has been written; a slow reader: 3 (thorough 4) pipelined requests answered while the client's socket accepts nothing / 3 bytes / everything per write, writable events in between, then the client catches up (writable events for as long as the proxy asks the poller for them): every completed reply has been delivered, byte-exact"
 		},
 		Assumptions: []string{worldAssume, "'promptly' = within the same event-loop event; unbounded histories are covered only through this inductive step"}, Stubs: []string{stubWorld},
 		Outside: []string{"real time, fairness of epoll, more than 3 outstanding requests"}})
@@ -293,7 +293,7 @@ func init() {
 			return js
 		},
 		Bounds: func(tier string) string {
-			return "1..2 clients, 2..3 forwarded requests (GET/SET/MGET) with solver-chosen owners, every schedule up to 7/8 events; per backend connection the order of each client's requests is compared with that client's send order; a slow node: 3 (thorough 4) requests written while the backend socket accepts nothing / 3 bytes / everything per write and writable events drain nothing / 5 / 20 bytes in between, static outbound buffer of 16 (thorough also 8, 64) bytes: the node receives the requests byte-exact in client order"
+			return "1..2 clients, 2..3 forwarded requests (GET/SET/MGET) with solver-chosen owners, every schedule up to 6..8 events; per backend connection the order of each client's requests is compared with that client's send order; a slow node: 3 requests written while the backend socket accepts nothing / 3 bytes / everything per write and writable events drain nothing / 5 / 20 bytes in between, static outbound buffer of 16 (thorough also 8, 64) bytes: the node receives the requests byte-exact in client order"
 		},
 		Assumptions: []string{worldAssume, "one connection per backend node, no redirects"}, Stubs: []string{stubWorld},
 		Outside: []string{"redirected requests (a MOVED/ASK re-send legitimately reorders), more than one connection per node"}})
@@ -307,7 +307,7 @@ func init() {
 			return js
 		},
 		Bounds: func(tier string) string {
-			return "two clients with 1..2 requests each (GET / two-key MGET, solver-chosen owners and key bytes), every schedule up to 6 (quick) / 8 (thorough) events, with one of: node B's slots unowned, a client disconnecting mid-flight, dialling node B failing; thorough adds backend loss and timeouts"
+			return "two clients with 1..2 requests each (GET / two-key MGET, solver-chosen owners and key bytes), every schedule up to 6..7 events (thorough 7..8), with one of: node B's slots unowned, a client disconnecting mid-flight, dialling node B failing, backend error replies, several replies per read; thorough adds backend loss, timeouts, node removal and a late client on a reused descriptor number; a slow client's 9000-byte reply backlogged while another client is served on recycled request objects; an oversized reply with another client's request in flight behind it"
 		},
 		Assumptions: []string{worldAssume, "sync.Pool modelled as LIFO (the behaviour of a single goroutine between GCs), so a recycled request object is reused by the very next request"}, Stubs: []string{stubWorld},
 		Outside: []string{"more clients/requests, sync.Pool handing out older objects"}})
@@ -321,7 +321,7 @@ func init() {
 			return js
 		},
 		Bounds: func(tier string) string {
-			return "pipelines of 2 requests (GET / two-key MGET), a backend connection lost at ANY point of every schedule up to 6/8 events (before the request is written, after it, after other replies; noticed by reading EOF or only by the next write failing), or node B removed from the topology by the ticker (slots unowned or taken over), or dialling a node failing, or a redirect naming an unknown node; a client that disconnects with a request in flight and another that connects afterwards (and gets the freed descriptor number) before the backend is lost; at quiescence every request is answered or its client closed"
+			return "pipelines of 2 requests (GET / two-key MGET), a backend connection lost at ANY point of every schedule up to 5..8 events (before the request is written, after it, after other replies; noticed by reading EOF or only by the next write failing), or node B removed from the topology by the ticker (slots unowned or taken over), or dialling a node failing, or a redirect naming an unknown node; a client that disconnects with a request in flight and another that connects afterwards (and gets the freed descriptor number) before the backend is lost; at quiescence every request is answered or its client closed"
 		},
 		Assumptions: []string{worldAssume, "'lost' = the backend closes its end and the proxy reads EOF"}, Stubs: []string{stubWorld},
 		Outside: []string{"loss in the middle of a reply's bytes, node removal by the topology ticker, write errors other than EOF"}})
@@ -335,7 +335,7 @@ func init() {
 			return js
 		},
 		Bounds: func(tier string) string {
-			return "pipelines of 2..3 requests (GET / two-key MGET), timeout 50 ms of model time, time passes beyond the timeout at ANY single point of every schedule up to 6/8 events, backends may answer before, after or never; at quiescence every request has exactly one reply, in order, the connection is open; sequences of 5 (thorough 7) requests on one connection, each answered in time or timed out with its late reply arriving at once or with the next reply (several timeouts per run, request objects recycled)"
+			return "pipelines of 2..3 requests (GET / two-key MGET), timeout 50 ms of model time, time passes beyond the timeout at ANY single point of every schedule up to 6..7 events (thorough 7..8), backends may answer before, after or never; at quiescence every request has exactly one reply, in order, the connection is open; sequences of 5 (thorough 7) requests on one connection, each answered in time or timed out with its late reply arriving at once or with the next reply (several timeouts per run, request objects recycled)"
 		},
 		Assumptions: []string{worldAssume, "model clock: each clock reading advances 1 microsecond, 'time passes' advances 70 ms; the timeout sweep runs after every event as at the end of every poller iteration"}, Stubs: []string{stubWorld},
 		Outside: []string{"real time, the 200 ms epoll cadence, several separate timeouts within one pipeline"}})
